@@ -145,6 +145,9 @@ def load_config(facts_dir):
     for name in ("gecs", "gecs_macros", "specimen"):
         p = os.path.join(facts_dir, name + ".json")
         if not os.path.exists(p):
+            if name == "specimen" and os.path.exists(os.path.join(facts_dir, "specimen.error")):
+                out[name] = None
+                continue
             raise FileNotFoundError("fact file missing: " + p)
         out[name] = Crate(p)
     return out
